@@ -347,3 +347,11 @@ func TestC11Machine(t *testing.T) {
 		t.Repeat(m.actions())
 	})
 }
+
+// FuzzC11List: the state machine under the native coverage-guided fuzzer (thorough tier).
+func FuzzC11List(f *testing.F) {
+	f.Fuzz(rapid.MakeFuzz(func(t *rapid.T) {
+		m := &machine{gen: vio.Gen{Key: 1111}}
+		t.Repeat(m.actions())
+	}))
+}
